@@ -12,7 +12,7 @@
 //!                 24 first five bytes of CONNECT, 25 the rest of CONNECT, 26 byte 0x82 (first byte of a
 //!                 SUBSCRIBE), 27 byte 0x05 (its remaining length: the header is complete), 3 close
 //!   kind 13 / 15  v3 / v5 client with keep-alive cfg[0] s; the harness is the broker: ops 30 CONNACK, 3 close,
-//!                 33 CONNACK with Receive Maximum 1 (v3: plain), 31 the client application publishes one QoS 1
+//!                 33 CONNACK with Receive Maximum 1 (v3: plain CONNACK, the client is configured with max_send 1), 31 the client application publishes one QoS 1
 //!                 message (once per scenario), 32 the broker writes PUBACK(1), 341..343 CONNACK carrying Server
 //!                 Keep Alive 1..3 (v3: plain CONNACK)
 //!   observation per second: closed (0/1), then for every packet received so far its first byte
@@ -97,7 +97,12 @@ async fn run_mqtt_case(c: Fields, start: Instant) -> Fields {
     if g(4) != 0 {
         iocfg = iocfg.set_frame_read_rate(Seconds(g(4) as u16), Seconds(g(5) as u16), g(6) as u32);
     }
-    let mcfg = MqttServiceConfig::new().set_connect_timeout(Seconds(ct as u16));
+    let mut mcfg = MqttServiceConfig::new().set_connect_timeout(Seconds(ct as u16));
+    if kind == 13 && c.iter().skip(1).any(|op| op.get(1) == Some(&33)) {
+        // op 33 = "the broker allows one unacknowledged message": an MQTT 5 broker says so in CONNACK, for an
+        // MQTT 3.1.1 client the application configures its send window
+        mcfg = mcfg.set_max_send(1);
+    }
     let shared: SharedCfg = SharedCfg::new("RT").add(mcfg).add(iocfg).into();
 
     let panicked = Rc::new(std::cell::Cell::new(false));
